@@ -9,9 +9,12 @@ def _addr():
     return HdlcAddress(1, None, "client"), HdlcAddress(1, 17, "server")
 
 
-def frame_bytes(i, payload, segmented=False, final=True):
+def frame_bytes(i, payload, segmented=False, final=True, srv=None):
     from dlms_cosem.hdlc import frames
     client, server = _addr()
+    if srv is not None:
+        from dlms_cosem.hdlc.address import HdlcAddress
+        server = HdlcAddress(srv[0], srv[1], "server")
     return frames.InformationFrame(client, server, payload, send_sequence_number=i % 8, receive_sequence_number=0,
                                    segmented=segmented, final=final).to_bytes()
 
@@ -21,7 +24,36 @@ def token(n, payloads):
     return f"{n}:{h}"
 
 
-def run_stream(chunks, with_token=True, second_conn=False):
+def run_ua(ua, cuts):
+    """a UA (answer to SNRM) arriving in pieces: delivered exactly when its last byte is in, nothing raised before, nothing left."""
+    from dlms_cosem.hdlc.connection import HdlcConnection
+    from dlms_cosem.hdlc import frames, state as hstate
+    client, server = _addr()
+    conn = HdlcConnection(server, client)
+    conn.send(frames.SetNormalResponseModeFrame(server, client))
+    chunks = [ua[a:b] for a, b in zip([0] + cuts, cuts + [len(ua)])]
+    fed = 0
+    for ch in chunks:
+        conn.receive_data(ch)
+        fed += len(ch)
+        got = None
+        while True:
+            ev = conn.next_event()
+            if ev is not hstate.NEED_DATA:
+                got = ev
+                break
+            if conn.buffer.find(b"\x7e", conn.buffer_search_position) < 0:
+                break
+        if got is not None and fed < len(ua):
+            return f"ok ua delivered-after-{fed}-of-{len(ua)}-bytes"
+        if got is None and fed == len(ua):
+            return f"ok ua never-delivered buffer={len(conn.buffer)}"
+        if got is not None and (bytes(got.payload) != bytes(ua[9:-3] if len(ua) > 11 else b"") or len(conn.buffer)):
+            return f"ok ua delivered-payload={bytes(got.payload).hex()} buffer={len(conn.buffer)}"
+    return "ok ua"
+
+
+def run_stream(chunks, with_token=True, second_conn=False, reuse_buf=False):
     """feed the chunks to a real HdlcConnection that awaits a response; poll until nothing is pending."""
     from dlms_cosem.hdlc.connection import HdlcConnection
     from dlms_cosem.hdlc import frames, state as hstate
@@ -34,6 +66,7 @@ def run_stream(chunks, with_token=True, second_conn=False):
     outs = ["ok"]
     delivered = []
     other = None
+    shared_buf = bytearray()
     if second_conn:
         # another connection in the same process (another meter on another port) that is in the middle of receiving a frame
         # of its own: connections do not share their receive buffers
@@ -47,7 +80,12 @@ def run_stream(chunks, with_token=True, second_conn=False):
         if other is not None:
             other.receive_data(b"\x23")
             other.next_event()
-        conn.receive_data(ch)
+        if reuse_buf:
+            # the caller reads into one buffer of its own and hands that same object over every time
+            shared_buf[:] = ch
+            conn.receive_data(shared_buf)
+        else:
+            conn.receive_data(ch)
         new = []
         while True:
             ev = conn.next_event()
@@ -85,6 +123,9 @@ class C10(fw.Prop):
     chunk = 3000
 
     def make_case(self, d):
+        if d.get("ua"):
+            ua = bytes.fromhex(d["ua"])
+            return fw.Case("echo ua", lambda: run_ua(ua, list(d["cuts"])), "prop", dict(d), tags=("ua-in-pieces",))
         frames = [bytes.fromhex(x) for x in d["frames"]]          # complete wire frames
         payloads = [bytes.fromhex(x) for x in d["payloads"]]
         share = d["share"]
@@ -111,7 +152,8 @@ class C10(fw.Prop):
             # with garbage in the stream the property demands nothing: compare the model side only
             lines.append(f"rx feed {fw.hx(ch)} {token(n, payloads) if not d.get('garbage') else '-'}")
         kind = "split" if not d.get("garbage") else "model"
-        return fw.Case(lines, lambda: run_stream(chunks, with_token=not d.get("garbage"), second_conn=bool(d.get("second_conn"))), kind, dict(d),
+        return fw.Case(lines, lambda: run_stream(chunks, with_token=not d.get("garbage"), second_conn=bool(d.get("second_conn")),
+                                                 reuse_buf=bool(d.get("reuse_buf"))), kind, dict(d),
                        tags=(d.get("tag", "stream"), f"frames{len(frames)}"))
 
     def gen_stream(self, rng, nframes, maxlen, density):
@@ -172,6 +214,46 @@ class C10(fw.Prop):
             for c in (range(1, total) if deep else rng.sample(range(1, total), min(total - 1, 12))):
                 yield mk(d_of(frames, payloads, share, [c], "embedded-frame"))
             yield mk(d_of(frames, payloads, share, list(range(1, total)), "embedded-frame"))
+        # the same streams handed over in one re-used bytearray (the caller's read buffer)
+        for rep in range(20 if deep else 5):
+            n = rng.randint(1, 4)
+            frames, payloads, share = self.gen_stream(rng, n, rng.choice([8, 60]), rng.choice([0.0, 0.3]))
+            total = sum(len(f) for f in frames) - sum(share)
+            for cuts in ([], sorted(rng.sample(range(1, total), min(total - 1, rng.randint(1, 8)))), list(range(1, total))):
+                d = d_of(frames, payloads, share, cuts, "reused-read-buffer")
+                d["reuse_buf"] = True
+                yield mk(d)
+        # stations with two- and four-byte addresses sending the longest frames (payload 2028..2030), own and shared flags
+        for srv in ((1, None), (1, 17), (1, 300), (300, 17), (16383, 16383)):
+            for L in (2028, 2029, 2030):
+                for sh in (False, True):
+                    payloads = [bytes(rng.getrandbits(8) | 1 for _ in range(5)), bytes((i * 7 + L) % 256 for i in range(L)), b"\x01\x02"]
+                    frames = [frame_bytes(i, p, segmented=(i < 2), srv=srv) for i, p in enumerate(payloads)]
+                    share = [sh, sh]
+                    total = sum(len(f) for f in frames) - sum(share)
+                    yield mk(d_of(frames, payloads, share, sorted(rng.sample(range(1, total), 6)), "longest-frames"))
+        # the UA answering SNRM, in pieces: bare, with negotiation parameters (126 = 0x7E), with check sequences containing 0x7E
+        from harness.props.c18 import crc_x25
+
+        def ua_bytes(info):
+            n = 2 + 1 + 2 + 1 + 2 + (len(info) + 2 if info else 0)
+            head = (0xA000 | n).to_bytes(2, "big") + bytes([0x03, 0x02, 0x23, 0x73])
+            body = head + crc_x25(head) + info
+            return b"\x7e" + body + (crc_x25(body) if info else b"") + b"\x7e"
+
+        def params(tx, rx, w=1):
+            body = b"\x05\x01" + bytes([tx]) + b"\x06\x01" + bytes([rx]) + b"\x07\x04" + w.to_bytes(4, "big") + b"\x08\x04\x00\x00\x00\x01"
+            return b"\x81\x80" + bytes([len(body)]) + body
+        uas = [ua_bytes(b""), ua_bytes(params(128, 128)), ua_bytes(params(126, 126)), ua_bytes(params(126, 128)), ua_bytes(params(0x7E, 0x7E, 0x7E7E7E7E))]
+        for w in range(1, 3000):
+            u = ua_bytes(params(128, 128, w))
+            if 0x7E in u[-3:-1] and len(uas) < 8:
+                uas.append(u)
+        for u in uas:
+            yield mk({"ua": u.hex(), "cuts": [], "tag": "ua"})
+            for c in range(1, len(u)):
+                yield mk({"ua": u.hex(), "cuts": [c], "tag": "ua"})
+            yield mk({"ua": u.hex(), "cuts": list(range(1, len(u))), "tag": "ua"})
         # long streams: random multi-cuts
         for _ in range(400 if deep else 40):
             n = rng.randint(1, 8)
